@@ -8,6 +8,7 @@ pub const JACCARD_THRESHOLD: f64 = 0.51;
 // @item rust/core/src/matching/word.rs :: const DAMLEV_THRESHOLD
 pub const DAMLEV_THRESHOLD: f64 = 0.21;
 //@include ../common/gates.rs
+//@include ../jaccard/laws.rs
 impl<'a> WordView<'a> {
     pub open spec fn small(&self) -> bool { self.slice.1 - self.slice.0 < 0x10_0000 }
 }
@@ -31,6 +32,23 @@ pub open spec fn edit1_case(rword: &WordView, qword: &WordView) -> bool {
     !qword.fin && 4 <= qword.vlen() && 4 <= rword.vlen() && (5 <= qword.vlen() || 5 <= rword.vlen())
     && qword.vlen() <= rword.vlen() + 1 && rword.vlen() <= qword.vlen() + 1
     && dcell(qword.vchars(), qword.vclasses(), rword.vchars(), rword.vclasses(), qword.vlen(), rword.vlen()) <= 2
+}
+// C03 / C13: the Jaccard pre-filter passes for an exact prefix and for an identical word (no hypothesis left)
+proof fn lemma_jac_prefix(rword: &WordView, qword: &WordView)
+    requires rword.wfs(), qword.wfs(), rword.small(), qword.small(), prefix_case(rword, qword) || equal_case(rword, qword)
+    ensures jac_passes(rword, qword)
+{
+    let a = jac_arg(rword, qword); let b = qword.vchars(); let r = rword.vchars();
+    let n = qword.vlen();
+    let x = if a.len() > n { r[n] } else { r[0] };
+    assert forall|y: char| b.contains(y) implies a.contains(y) by {
+        let t = choose|t: int| 0 <= t < b.len() && b[t] == y; assert(r[t] == b[t]); assert(a[t] == y);
+    }
+    assert forall|y: char| a.contains(y) implies b.contains(y) || y == x by {
+        let t = choose|t: int| 0 <= t < a.len() && a[t] == y;
+        if t < n { assert(b[t] == r[t]); assert(b.contains(y)); }
+    }
+    lemma_jac_gate_superset(a, b, x);
 }
 pub open spec fn good(best: Option<(WordMatch, WordMatch)>) -> bool { best matches Some(p) && is_h(p.0.typos) && hv(p.0.typos) == 0 }
 pub open spec fn good_full(best: Option<(WordMatch, WordMatch)>, n: int) -> bool { good(best) && (best matches Some(p) && p.0.subslice.1 == n && p.1.subslice.1 == n) }
@@ -72,15 +90,15 @@ pub fn word_match(rword: &WordView, qword: &WordView, tls: &mut Tls) -> (ret: Op
         wm_prov(ret), // [C01 C14]
         wm_fin(ret, rword, qword), // [C08 C13 C12]
         // C03 (word level): an exact prefix that passes the Jaccard pre-filter is matched with zero typos
-        prefix_case(rword, qword) && jac_passes(rword, qword) ==> good(ret), // [C03]
+        prefix_case(rword, qword) ==> good(ret), // [C03]
         // C05(c): ... and the match covers exactly the typed characters
-        prefix_case(rword, qword) && jac_passes(rword, qword) ==> good_full(ret, qword.vlen()), // [C05]
+        prefix_case(rword, qword) ==> good_full(ret, qword.vlen()), // [C05]
         // C04 (word level): within one edit => matched
         edit1_case(rword, qword) && jac_passes(rword, qword) ==> ret is Some, // [C04]
         // C13 (word level): an identical word is matched completely, with zero typos
-        equal_case(rword, qword) && jac_passes(rword, qword) ==> good_full(ret, rword.vlen()), // [C13 C08]
+        equal_case(rword, qword) ==> good_full(ret, rword.vlen()), // [C13 C08]
 {
-    proof { f64_obeys(); }
+    proof { f64_obeys(); if prefix_case(rword, qword) || equal_case(rword, qword) { lemma_jac_prefix(rword, qword); } }
     if qword.is_empty() || rword.is_empty() {
         return None;
     }
